@@ -182,9 +182,31 @@ def r17_3(ctx):
     return r
 
 
+def r17_4(ctx):
+    r = Rule("R17.4", "members with the same name are merged whatever their source position: no hash / equality lookup keyed by PropName (its derived Eq and Hash include the span)",
+             "`{format: string} | {format(v: Date): string}` emits the key twice and the later entry wins, so one of the two member types is rejected at run time")
+    from ..cfg import calls, callee_name
+    LOOKUP = re.compile(r"(IndexMap::<K, V, S>|HashMap::<K, V, S, A>|BTreeMap::<K, V, A>)::(entry|get|get_mut|get_full|get_index_of|contains_key|remove|swap_remove|shift_remove)$")
+    n = 0
+    for mb in ctx.facts.mir:
+        if mb["crate"] != VISITOR_CRATE or mb.get("mac"):
+            continue
+        for i, t in calls(mb):
+            name = callee_name(t)
+            full = t.get("callee_full", "")
+            if re.search(r"(IndexMap|HashMap|BTreeMap)::<%sPropName," % re.escape(AST), full):
+                n += 1
+                r.saw(mb["path"])
+                if LOOKUP.search(name):
+                    r.ob("%s: %s on a map keyed by PropName" % (mb["path"], name.split("::")[-1]), False, C.mloc(mb, t),
+                         "`%s` finds an existing member only if its key has the same span: same-named members declared in different places are not merged" % name.split("::")[-1])
+    r.ob("maps keyed by PropName are only inserted into / iterated; look-ups compare with eq_ignore_span", True, "-", "%d call(s) on such maps examined" % n)
+    return r
+
+
 def rules(ctx):
     from . import c16
-    return [r17_1, r17_2, r17_3, c16.r16_2]
+    return [r17_1, r17_2, r17_3, r17_4, c16.r16_2]
 
 
 EXPLANATION = (
